@@ -36,6 +36,7 @@ Inductive lev :=
 Record lcfg := mkLcfg {
   l_engine : engine;
   l_proc : bool;
+  l_dests : nat;                       (* number of destinations: 1, or 2 = the source fans out (arch-v2, funnel.Worker.doNextTask) *)
   l_dlq_size : nat; l_dlq_thr : nat;
   l_maxretries : Z;                    (* -1 = unbounded *)
   l_min : Z; l_max : Z; l_window : Z   (* microseconds *) }.
@@ -71,21 +72,127 @@ Definition fail_of (cf : lcfg) (hist : list bool) (lr : lastrej) (p : point) (o 
   | PSrcTd, _ | PDstTd, _ | PDlqTd, _ => Some FTeardown
   end.
 
-Definition prop_cause (cf : lcfg) (hist : list bool) (p : point) (o : outc) : pcause :=
-  match fail_of cf hist LRNone p o with
-  | None => PNone
-  | Some k =>
-      if property_fatal k then
-        match k with
-        | FThreshold => PFatalThreshold
-        | FProcNotAbsorbed _ => PFatalProc
-        | _ => PFatalDlqWrite
-        end
-      else PTransient
-  end.
+(* the property's class of ONE failure *)
+Definition pcause_of (k : pfail) : pcause :=
+  if property_fatal k then
+    match k with
+    | FThreshold => PFatalThreshold
+    | FProcNotAbsorbed _ => PFatalProc
+    | _ => PFatalDlqWrite
+    end
+  else PTransient.
 
 Definition is_reject (p : point) (o : outc) : bool :=
   match p, o with PDstWrite, ONack => true | PProcDo, _ => true | _, _ => false end.
+
+(* ---------- which failure every injection of a log is: one pass over the log ----------
+   State: the DLQ window's history of the current run, what rejected last, and - for a pipeline whose source fans
+   out to [l_dests] destinations - how many branches of the current batch pass have answered and whether one of them
+   has rejected the record.  funnel.multiAckNacker: the record is acknowledged (ONE ack in the DLQ window) when the
+   last branch has written it and none rejected it; the FIRST rejection is terminal and goes to the DLQ once, every
+   later vote of a sibling for that record is a no-op. *)
+Record cst := mkCst { k_hist : list bool; k_lr : lastrej; k_n : nat; k_nacked : bool }.
+Definition cst0 : cst := mkCst [] LRNone 0 false.
+
+Definition raw_step (cf : lcfg) (k : cst) (e : lev) : cst * option pfail :=
+  let multi := (1 <? l_dests cf)%nat in
+  (* a branch of the pass has answered: the pass is over when all of them have *)
+  let branch (h : list bool) (lr : lastrej) (nk : bool) :=
+    let n' := S (k_n k) in
+    if (l_dests cf <=? n')%nat then mkCst h lr 0 false else mkCst h lr n' nk in
+  match e with
+  | EvSt _ Running => (k, None)
+  | EvSt _ _ => (cst0, None)
+  | EvOpen _ KSrc => (cst0, None)
+  | EvWrite KDst =>
+      if multi then
+        let last := (l_dests cf <=? S (k_n k))%nat in
+        (branch (if last && negb (k_nacked k) then k_hist k ++ [false] else k_hist k) (k_lr k) (k_nacked k), None)
+      else (mkCst (k_hist k ++ [false]) (k_lr k) 0 false, None)
+  | EvInj p o =>
+      match p, o with
+      | PDstWrite, ONack =>
+          if multi && k_nacked k then (branch (k_hist k) (k_lr k) true, None)       (* a sibling rejected it first: no-op *)
+          else
+            let f := fail_of cf (k_hist k) (k_lr k) p o in
+            if multi then (branch (k_hist k ++ [true]) LRDst true, f)
+            else (mkCst (k_hist k ++ [true]) LRDst 0 false, f)
+      | PDstWrite, OErr =>
+          let f := fail_of cf (k_hist k) (k_lr k) p o in
+          if multi then (branch (k_hist k) (k_lr k) (k_nacked k), f) else (k, f)
+      | PProcDo, _ =>
+          (mkCst (k_hist k ++ [true]) LRProc (k_n k) (k_nacked k), fail_of cf (k_hist k) (k_lr k) p o)
+      | _, _ => (k, fail_of cf (k_hist k) (k_lr k) p o)
+      end
+  | _ => (k, None)
+  end.
+
+Fixpoint raw_annot (cf : lcfg) (k : cst) (log : list lev) : list (lev * option pfail) :=
+  match log with
+  | [] => []
+  | e :: t => let '(k', f) := raw_step cf k e in (e, f) :: raw_annot cf k' t
+  end.
+
+(* ---------- arch-v2: the failures of one batch pass reach the tomb as ONE error ----------
+   The worker of a source is one goroutine: Source read, processors, the destination branches and the DLQ of a batch
+   pass run inside Worker.doTask, whose error is the errors.Join of the branch errors (Life/Fanout.v); Worker.Do
+   returns at the first failing pass and runPipeline Kills the tomb with that one error before anything else of the
+   run can (the connectors' teardown comes after it).  So the failures injected at these points between the first
+   one and the end of the run are MEMBERS of one joined error: the first injection is annotated with all of them (in
+   log order = the order in which the branches finished), the later ones with none. *)
+Definition worker_point (p : point) : bool :=
+  match p with PSrcRead | PDstWrite | PDlqWrite | PProcDo => true | _ => false end.
+
+Definition run_end (e : lev) : bool :=
+  match e with
+  | EvOpen _ KSrc => true
+  | EvSt _ Running => false
+  | EvSt _ _ => true
+  | _ => false
+  end.
+
+Fixpoint members_ahead (l : list (lev * option pfail)) : list pfail :=
+  match l with
+  | [] => []
+  | (e, f) :: t =>
+      if run_end e then []
+      else match e, f with
+           | EvInj p _, Some x => if worker_point p then x :: members_ahead t else members_ahead t
+           | _, _ => members_ahead t
+           end
+  end.
+
+Fixpoint join_annot (v2 : bool) (injoin : bool) (l : list (lev * option pfail)) : list (lev * list pfail) :=
+  match l with
+  | [] => []
+  | (e, f) :: t =>
+      let inj0 := if run_end e then false else injoin in
+      match e, f with
+      | EvInj p _, Some x =>
+          if v2 && worker_point p then
+            if inj0 then (e, []) :: join_annot v2 true t
+            else (e, x :: members_ahead t) :: join_annot v2 true t
+          else (e, [x]) :: join_annot v2 inj0 t
+      | _, _ => (e, []) :: join_annot v2 inj0 t
+      end
+  end.
+
+Definition is_v2 (cf : lcfg) : bool := match l_engine cf with V2 => true | V1 => false end.
+
+(* every event with the failures it stands for ([] = none; more than one = a joined error of arch-v2) *)
+Definition annot (cf : lcfg) (log : list lev) : list (lev * list pfail) :=
+  join_annot (is_v2 cf) false (raw_annot cf cst0 log).
+
+(* the property's class of a joined error: fatal as soon as one member is a fatal cause (its kind = the first one's) *)
+Definition pcause_join (ms : list pfail) : pcause :=
+  match filter property_fatal ms with
+  | k :: _ => pcause_of k
+  | [] => match ms with [] => PNone | _ => PTransient end
+  end.
+
+(* the joined error has a fatal member AND a transient sibling *)
+Definition mixed_join (ms : list pfail) : bool :=
+  existsb property_fatal ms && existsb (fun k => negb (property_fatal k)) ms.
 
 (* ---------- rule bits ---------- *)
 Definition bit (n : nat) : N := N.shiftl 1 (N.of_nat n).
@@ -159,7 +266,7 @@ Definition is_stopkind (k : ckind) : bool :=
   match k with KStop | KStopWait => true | _ => false end.
 
 (* cur: the stored status before this event *)
-Definition mon10_step (cf : lcfg) (cur : status) (s : m10) (e : lev) : m10 :=
+Definition mon10_step (cf : lcfg) (cur : status) (ms : list pfail) (s : m10) (e : lev) : m10 :=
   match e with
   | EvOpen t KSrc =>
       let auto := negb (a_ustart s) in
@@ -200,7 +307,7 @@ Definition mon10_step (cf : lcfg) (cur : status) (s : m10) (e : lev) : m10 :=
             (a_forcecall s) (a_shutcall s) (a_ustop s) (a_shut s) (a_calls s) (a_attempts s) (a_lastrec s) (a_v s)
   | EvWrite _ => s
   | EvInj p o =>
-      let c := prop_cause cf (a_hist s) p o in
+      let c := pcause_join ms in
       let h := if is_reject p o then a_hist s ++ [true] else a_hist s in
       let isf := match c with PFatalThreshold | PFatalProc | PFatalDlqWrite => true | _ => false end in
       let ist := match c with PTransient => true | _ => false end in
@@ -324,14 +431,14 @@ Definition mon10_step (cf : lcfg) (cur : status) (s : m10) (e : lev) : m10 :=
   end.
 
 (* every event together with the status stored before it *)
-Fixpoint annotate (cur : status) (log : list lev) : list (status * lev) :=
+Fixpoint annotate {A} (cur : status) (log : list (lev * A)) : list (status * (lev * A)) :=
   match log with
   | [] => []
-  | e :: t => (cur, e) :: annotate (match e with EvSt _ x => x | _ => cur end) t
+  | e :: t => (cur, e) :: annotate (match fst e with EvSt _ x => x | _ => cur end) t
   end.
 
 Definition mon10 (cf : lcfg) (log : list lev) : N :=
-  a_v (fold_left (fun s ce => mon10_step cf (fst ce) s (snd ce)) (annotate UserStopped log) a0).
+  a_v (fold_left (fun s ce => mon10_step cf (fst ce) (snd (snd ce)) s (fst (snd ce))) (annotate UserStopped (annot cf log)) a0).
 
 (* =====================================================================
    Mon_C11
